@@ -145,6 +145,11 @@ fn check_dfs<D: Order + OutNeighbors + Clone>(d: &D, m: &Model, src: &[usize], o
         "clone-of-a-fresh-Dfs-iterator-differs",
         || format!("Dfs {a2:?} DfsDist {b2:?} DfsPred {c2:?}"),
     );
+    if n <= 24 && src.len() == 1 && m.size() % 6 == 1 {
+        crate::obs::iter_consistency(o, "Dfs", || Dfs::new(d, src.iter().copied()));
+        crate::obs::iter_consistency(o, "DfsDist", || DfsDist::new(d, src.iter().copied()));
+        crate::obs::iter_consistency(o, "DfsPred", || DfsPred::new(d, src.iter().copied()));
+    }
     // the three iterators must agree item by item
     let va: Vec<usize> = a.iter().map(|x| x.1).collect();
     let vb: Vec<usize> = b.iter().map(|x| x.1).collect();
